@@ -29,7 +29,7 @@ type helloCase struct {
 	extNames []string
 }
 
-var poolNames = []string{"sni", "alpn", "sv13", "sv12+13", "sv12", "grease-ext", "unknown-empty", "padding512", "ech-unknown-id", "ech-known-id-garbage", "sv10-12", "alpn-long"}
+var poolNames = []string{"sni", "alpn", "sv13", "sv12+13", "sv12", "grease-ext", "unknown-empty", "padding512", "ech-unknown-id", "ech-known-id-garbage", "sv10-12", "alpn-long", "sni-mixed-case"}
 
 func poolExt(i int) tlsref.Ext {
 	switch i {
@@ -57,6 +57,8 @@ func poolExt(i int) tlsref.Ext {
 		return tlsref.SupportedVersions(0x0301, 0x0302, 0x0303)
 	case 11:
 		return tlsref.ALPN("a", string(bytes.Repeat([]byte("p"), 255)), "h3")
+	case 12:
+		return tlsref.SNI("MiXed.Example.ORG")
 	}
 	panic("pool")
 }
@@ -142,7 +144,7 @@ func kindOf(c helloCase) string {
 }
 
 func Run(r *ev.Run) {
-	r.Rule("E1 exhaustive: ClientHellos = legacy_version{0x0301,0x0303} x session id{0,32} x cipher-suite lists{1,3,150 incl. GREASE} x compression{[0],[1,0]} x every ordered selection of <=k extensions from a 12-item pool (SNI, 2 ALPN lists, 4 supported_versions lists incl. TLS1.2-only/1.0-1.2, GREASE ext, unknown empty ext, 300-byte padding, ECH outer with unknown id, ECH outer with known id and garbage payload; at most one of each kind) plus 'empty block' and 'no extensions block at all' x key sets{none, unrelated id, same id}; k=3 quick (full product) / k=4 thorough; plus following-stream family: record sequences over {CCS, handshake, alert, app-data} with lengths {0,1,16384,16640} after the hello, and backend->client bytes. distinct = distinct (stream,key set)")
+	r.Rule("E1 exhaustive: ClientHellos = legacy_version{0x0301,0x0303} x session id{0,32} x cipher-suite lists{1,3,150 incl. GREASE} x compression{[0],[1,0]} x every ordered selection of <=k extensions from a 13-item pool (SNI lower-/mixed-case, 2 ALPN lists, 4 supported_versions lists incl. TLS1.2-only/1.0-1.2, GREASE ext, unknown empty ext, 300-byte padding, ECH outer with unknown id, ECH outer with known id and garbage payload; at most one of each kind) plus 'empty block' and 'no extensions block at all' x key sets{none, unrelated id, same id}; k=3 quick (full product) / k=4 thorough; plus following-stream family: record sequences over {CCS, handshake, alert, app-data} with lengths {0,1,16384,16640} after the hello, and backend->client bytes. distinct = distinct (stream,key set)")
 	r.Assume("crypto/tls is the independent extractor of SNI/ALPN (compared only when it parses the hello)", "SNI entries use name_type 0 and ALPN names are non-empty")
 	ks := keySets()
 	maxExt := 3
@@ -158,6 +160,9 @@ func Run(r *ev.Run) {
 		}
 		for i := range poolNames {
 			if slices.Contains(cur, i) {
+				continue
+			}
+			if (i == 0 || i == 12) && (slices.Contains(cur, 0) || slices.Contains(cur, 12)) {
 				continue
 			}
 			if isSV(i) && slices.ContainsFunc(cur, isSV) || isECH(i) && slices.ContainsFunc(cur, isECH) || isALPN(i) && slices.ContainsFunc(cur, isALPN) {
